@@ -167,6 +167,65 @@ def sleepers(k, m):
     return scenario
 
 
+def looping_sleepers(n, ns):
+    """sleepers that sleep again as soon as they wake (the library's polling loops), several switches: every one of
+    the sleeps ends at the first switch that falls inside it, or at its deadline"""
+    def scenario(sx):
+        import asyncio
+        import geckolib.config as gc
+        from sx.vloop import VLoop
+        from sx.core import And
+        loop = VLoop(start=0)
+        saved_cc = gc.ConfigChange
+        gc.ConfigChange = None
+        try:
+            starts = [sx.real_(f"start{i}", 0, 1) for i in range(n)]
+            delays = [[sx.real_(f"delay{i}_{r}", 0, 10) for r in range(2)] for i in range(n)]
+            switches = [sx.real_(f"switch{j}", 0, 25) for j in range(ns)]
+            for j in range(1, ns):
+                sx.assume(switches[j - 1] < switches[j])
+            for s in starts + switches + [d for ds in delays for d in ds]:
+                sx.assume(s > 0)
+            # distinct instants (see assumptions): every start, deadline and switch that can occur
+            inst = list(switches)
+            for i in range(n):
+                first_end = starts[i] + delays[i][0]
+                inst += [starts[i], first_end] + [t1 + delays[i][1] for t1 in [first_end] + list(switches)]
+            for a in range(len(inst)):
+                for b in range(a + 1, len(inst)):
+                    sx.assume(inst[a] != inst[b])
+            spans = []
+
+            async def sleeper(i):
+                await asyncio.sleep(starts[i])
+                for r in range(2):
+                    t0 = loop.time()
+                    await gc.config_sleep(delays[i][r])
+                    spans.append((i, r, t0, delays[i][r], loop.time()))
+
+            async def switcher():
+                for j in range(ns):
+                    await asyncio.sleep(switches[j] - loop.time())
+                    gc.set_config_mode(j % 2 == 0)
+
+            async def main():
+                await asyncio.gather(*[asyncio.ensure_future(sleeper(i)) for i in range(n)], asyncio.ensure_future(switcher()))
+            gc.ConfigChange = loop.create_future()
+            # distinct instants: no deadline or start coincides with a switch (see assumptions)
+            loop.run_until_complete(main(), max_time=1000)
+            for (i, r, t0, d, w) in spans:
+                sx.check(w <= t0 + d, "slp.loop.never-sleeps-longer-than-asked")
+                exp = t0 + d
+                for sw in reversed(switches):
+                    exp = _ite(And(sw > t0, sw < t0 + d), sw, exp)
+                sx.check(w == exp, "slp.loop.wakes-at-switch-or-deadline", lambda: f"sleeper {i} sleep {r}: woke {w} expected {exp}")
+            sx.check(len(spans) == 2 * n, "slp.loop.all-sleeps-ended")
+            loop.cancel_all()
+        finally:
+            gc.ConfigChange = saved_cc
+    return scenario
+
+
 def _ite(c, a, b):
     from sx.realtime import SymReal, _r, mkreal
     from sx.core import bterm
@@ -183,3 +242,6 @@ def units(tier):
         yield Unit(f"facade-selects.{plat}-{c}-{l}", facade_selects(plat, c, l), max_paths=50000)
     k, m = (2, 1) if tier == "quick" else (3, 2)
     yield Unit(f"sleepers.{k}x{m}", sleepers(k, m), max_paths=200000, max_depth=3000)
+    yield Unit("looping-sleepers.2x2", looping_sleepers(2, 2), max_paths=200000, max_depth=3000)
+    if tier != "quick":
+        yield Unit("looping-sleepers.3x2", looping_sleepers(3, 2), max_paths=400000, max_depth=4000)
